@@ -700,6 +700,56 @@ class Models:
     def x_pathlib_Path(self):
         return ClassVal(('ext', 'pathlib.Path'))
 
+    def u_method(self, v, name):
+        """methods of opaque library values (a DataFrame, a Figure)"""
+        from . import fsmodel
+        ex = self.ex
+        if name == 'to_pickle':
+            def to_pickle(ex_, a, k):
+                ex.run.assumed.add('A-pd')
+                ex.run.trace.append(Event('to_pickle', None, [v, a[0]], 'ret'))
+                fsmodel.write_in_place(ex, 'to_pickle', a[0], P.ufn('pd_bytes', [v.t.sort()], z3.IntSort())(v.t))
+            return Builtin('to_pickle', to_pickle)
+        if name == 'savefig':
+            def savefig(ex_, a, k):
+                ex.run.trace.append(Event('savefig', None, [v, a[0]], 'ret'))
+                fsmodel.write_in_place(ex, 'savefig', a[0], P.ufn('fig_bytes', [v.t.sort()], z3.IntSort())(v.t))
+            return Builtin('savefig', savefig)
+        raise OutOfSubset(f'attribute {name} of opaque value {v.kind.name}')
+
+    # ------------------------------------------------------------------ serialisation libraries (A-json, A-np, A-pd, A-pickle, A-yaml)
+    def _lib_bytes(self, name, v, extra=None):
+        """opaque serialised form of a value: an uninterpreted injective-by-assumption function"""
+        ex = self.ex
+        vt = lib_val(ex, v)
+        if extra is None:
+            return P.ufn(f'{name}_bytes', [vt.sort()], z3.IntSort())(vt)
+        return P.ufn(f'{name}_bytes', [vt.sort(), z3.IntSort()], z3.IntSort())(vt, z3.IntVal(extra))
+
+    def x_orjson(self):
+        return OrjsonModule()
+
+    def x_numpy(self):
+        return NumpyModule()
+
+    def x_pandas(self):
+        return PandasModule()
+
+    def x_pickle(self):
+        return PickleModule()
+
+    def x_yaml(self):
+        return YamlModule()
+
+    def x_matplotlib_pyplot(self):
+        return PltModule()
+
+    def x_pylab(self):
+        return ModuleVal(('ext', 'pylab'))
+
+    def x_h5py(self):
+        return ModuleVal(('ext', 'h5py'))
+
     # ------------------------------------------------------------------ inspect (A-inspect)
     def x_inspect_signature(self):
         return Builtin('inspect.signature', lambda ex_, a, k: SigObj(ex_, a[0]))
@@ -789,6 +839,40 @@ class Models:
     def x_pyvc_prims_pyrepr(self):
         return Builtin('prims.pyrepr', lambda ex_, a, k: P.py_repr(ex_, a[0]))
 
+    def x_pyvc_prims_orjson_dumps(self):
+        def f(ex_, a, k):
+            vt = lib_val(ex_, a[0])
+            fn = P.ufn('orjson_dumps_' + str(vt.sort()), [vt.sort(), z3.IntSort()], z3.StringSort())
+            return Sym(K.Str, fn(vt, P.int_t(ex_, a[1])))
+        return Builtin('prims.orjson_dumps', f)
+
+    def x_pyvc_prims_orjson_loads(self):
+        return Builtin('prims.orjson_loads', lambda ex_, a, k: Sym(K.U('Val', plain=True), P.ufn('orjson_loads', [z3.StringSort()], K.U('Val').sort())(P.str_t(ex_, a[0]))))
+
+    def x_pyvc_prims_content_append(self):
+        return Builtin('prims.content_append', lambda ex_, a, k: Sym(K.Int, P.ufn('content_append', [z3.IntSort(), z3.StringSort()], z3.IntSort())(P.int_t(ex_, a[0]), P.str_t(ex_, a[1]))))
+
+    def x_pyvc_prims_content_text(self):
+        return Builtin('prims.content_text', lambda ex_, a, k: Sym(K.Str, P.ufn('content_text', [z3.IntSort()], z3.StringSort())(P.int_t(ex_, a[0]))))
+
+    def x_pyvc_prims_npy_bytes(self):
+        def f(ex_, a, k):
+            vt = lib_val(ex_, a[0])
+            return Sym(K.Int, P.ufn('npy_bytes', [vt.sort()], z3.IntSort())(vt))
+        return Builtin('prims.npy_bytes', f)
+
+    def x_pyvc_prims_npy_load(self):
+        return Builtin('prims.npy_load', lambda ex_, a, k: Sym(K.U('Val', plain=True), P.ufn('npy_load', [z3.IntSort()], K.U('Val').sort())(P.int_t(ex_, a[0]))))
+
+    def x_pyvc_prims_lib_bytes(self):
+        def f(ex_, a, k):
+            vt = lib_val(ex_, a[1])
+            return Sym(K.Int, P.ufn(f'{a[0]}', [vt.sort()], z3.IntSort())(vt))
+        return Builtin('prims.lib_bytes', f)
+
+    def x_pyvc_prims_lib_load(self):
+        return Builtin('prims.lib_load', lambda ex_, a, k: Sym(K.U('Val', plain=True), P.ufn(f'{a[0]}', [z3.IntSort()], K.U('Val').sort())(P.int_t(ex_, a[1]))))
+
     def x_pyvc_prims_implies(self):
         def imp(ex_, a, k):
             x, y = a
@@ -823,6 +907,142 @@ class SigObj(ExtObj):
 
     def a_parameters(self, ex):
         return SigParams(self.target)
+
+
+def lib_val(ex, v):
+    """z3 term standing for a python value handed to a serialisation library"""
+    if isinstance(v, Sym):
+        return v.t
+    if isinstance(v, Ref):
+        cell = ex.run.cell(v)
+        if isinstance(cell, HDict) and cell.items is not None:
+            # {'key': key, 'value': value}: a tuple of the entries
+            f = P.ufn('pydict_' + '_'.join(str(k_) for k_ in cell.items), [lib_val(ex, x).sort() for x in cell.items.values()], K.U('Val').sort())
+            return f(*[lib_val(ex, x) for x in cell.items.values()])
+        if isinstance(cell, HList):
+            k = P.kind_of(ex, v)
+            return P.lift(ex, v, k)
+    if isinstance(v, (str, int, bool)) or v is None:
+        return P.to_dyn(ex, v)
+    raise OutOfSubset(f'value {v!r} handed to a serialisation library')
+
+
+def serializer_raises(ex, what, exc='TypeError'):
+    """a serialiser may reject the value (unserialisable / mistyped): fork"""
+    if ex.run.choose(2, tag=what, labels=['ret', 'raise']) == 1:
+        ex.run.trace.append(Event(what, None, [], 'raise'))
+        raise RaiseEx(ExcVal(exc, origin=what, payload=ex.run.fresh(K.U('Exc'), 'exc')))
+
+
+class OrjsonModule(ExtObj):
+    OPTS = {'OPT_SORT_KEYS': 1, 'OPT_SERIALIZE_NUMPY': 2, 'OPT_NON_STR_KEYS': 4, 'OPT_INDENT_2': 8}
+
+    def getattr(self, ex, name):
+        if name in self.OPTS:
+            return self.OPTS[name]
+        return ExtObj.getattr(self, ex, name)
+
+    def m_dumps(self, ex, data, option=0):
+        ex.run.assumed.add('A-json')
+        serializer_raises(ex, 'orjson.dumps')
+        vt = lib_val(ex, data)
+        ex.run.trace.append(Event('orjson.dumps', None, [data, option], 'ret'))
+        f = P.ufn('orjson_dumps_' + str(vt.sort()), [vt.sort(), z3.IntSort()], z3.StringSort())
+        return OrjsonBytes(Sym(K.Str, f(vt, P.int_t(ex, option))))
+
+    def m_loads(self, ex, s):
+        ex.run.assumed.add('A-json')
+        if isinstance(s, OrjsonBytes):
+            s = s.text
+        serializer_raises(ex, 'orjson.loads', 'ValueError')
+        st = P.str_t(ex, s)
+        ex.run.trace.append(Event('orjson.loads', None, [s], 'ret'))
+        return Sym(K.U('Val', plain=True), P.ufn('orjson_loads', [z3.StringSort()], K.U('Val').sort())(st))
+
+
+class OrjsonBytes(ExtObj):
+    def __init__(self, text):
+        self.text = text
+
+    def m_decode(self, ex):
+        return self.text
+
+
+class NumpyModule(ExtObj):
+    def getattr(self, ex, name):
+        if name == 'ndarray':
+            return ClassVal(('ext', 'numpy.ndarray'))
+        return ExtObj.getattr(self, ex, name)
+
+    def m_save(self, ex, path, value, **kw):
+        from . import fsmodel
+        ex.run.assumed.add('A-np')
+        vt = lib_val(ex, value)
+        ex.run.trace.append(Event('np.save', None, [path, value], 'ret'))
+        fsmodel.write_in_place(ex, 'np.save', path, P.ufn('npy_bytes', [vt.sort()], z3.IntSort())(vt))
+
+    def m_load(self, ex, path, **kw):
+        from . import fsmodel
+        ex.run.assumed.add('A-np')
+        p = fsmodel.as_path(ex, path)
+        g = fsmodel.fs_of(ex)
+        serializer_raises(ex, 'np.load', 'ValueError')
+        ex.run.trace.append(Event('np.load', None, [p], 'ret'))
+        return Sym(K.U('Val', plain=True), P.ufn('npy_load', [z3.IntSort()], K.U('Val').sort())(z3.Select(g.content, p.t)))
+
+
+class PandasModule(ExtObj):
+    def getattr(self, ex, name):
+        if name in ('DataFrame', 'Series'):
+            return ClassVal(('ext', f'pandas.{name}'))
+        return ExtObj.getattr(self, ex, name)
+
+    def m_read_pickle(self, ex, path):
+        from . import fsmodel
+        ex.run.assumed.add('A-pd')
+        p = fsmodel.as_path(ex, path)
+        g = fsmodel.fs_of(ex)
+        serializer_raises(ex, 'pd.read_pickle', 'ValueError')
+        ex.run.trace.append(Event('pd.read_pickle', None, [p], 'ret'))
+        return Sym(K.U('Val', plain=True), P.ufn('pd_load', [z3.IntSort()], K.U('Val').sort())(z3.Select(g.content, p.t)))
+
+
+class PickleModule(ExtObj):
+    def m_dump(self, ex, value, fh):
+        ex.run.assumed.add('A-pickle')
+        serializer_raises(ex, 'pickle.dump')
+        vt = lib_val(ex, value)
+        ex.run.trace.append(Event('pickle.dump', None, [value], 'ret'))
+        fh.m_write(ex, Sym(K.Str, P.ufn('pickle_text', [vt.sort()], z3.StringSort())(vt)))
+
+    def m_load(self, ex, fh):
+        ex.run.assumed.add('A-pickle')
+        txt = fh.m_read(ex)
+        serializer_raises(ex, 'pickle.load', 'ValueError')
+        return Sym(K.U('Val', plain=True), P.ufn('pickle_load', [z3.StringSort()], K.U('Val').sort())(txt.t))
+
+
+class YamlModule(ExtObj):
+    def getattr(self, ex, name):
+        if name == 'Loader':
+            return ClassVal(('ext', 'yaml.Loader'))
+        return ExtObj.getattr(self, ex, name)
+
+    def m_dump(self, ex, value, fh):
+        ex.run.assumed.add('A-yaml')
+        vt = lib_val(ex, value)
+        ex.run.trace.append(Event('yaml.dump', None, [value], 'ret'))
+        fh.m_write(ex, Sym(K.Str, P.ufn('yaml_text', [vt.sort()], z3.StringSort())(vt)))
+
+    def m_load(self, ex, fh, *a, **k):
+        ex.run.assumed.add('A-yaml')
+        txt = fh.m_read(ex)
+        return Sym(K.U('Info'), P.ufn('yaml_load', [z3.StringSort()], K.U('Info').sort())(txt.t))
+
+
+class PltModule(ExtObj):
+    def m_close(self, ex, fig):
+        ex.run.trace.append(Event('plt.close', None, [fig], 'ret'))
 
 
 class SigDecl(ExtObj):
